@@ -24,7 +24,11 @@ TRUSTED = ["harness/h_C12.cpp + h_C12_app.h + h_C12_node.inc: the application fa
            "data from the flat application)",
            "per-line premise line_reads of C12_roundtrip_tree_real_partial for lines outside C10's goodc fragment (see notes/C12.md stage 5)"]
 ASSUMPTIONS = ["the application is well formed: defaults inside the declared range, a preset selector has a plain default, "
-               "sibling names are prefix-free, float defaults are written as exact decimals, no NaN",
+               "sibling names are prefix-free, float defaults are written as exact decimals, no NaN (a NaN compares unequal to itself, "
+               "\"the same state\" is not defined for it; C14 records that a NaN is stored whatever the range)",
+               "float parameters hold finite values and option parameters a number inside their declared range: states with +-inf "
+               "or an out-of-range option number (unknown symbol: INT_MIN) are generated (every 10th application) and fail - finding "
+               "classes nonfinite-float, option-outside-range",
                "state = the parameters the walk reaches (parameters below a switched-off enabled-by toggle are not part of it)"]
 
 def one_app(rng, tier, dist, opts=None):
@@ -75,7 +79,13 @@ def gen(rng, tier, dist):
         r = rng.random()
         if r < 0.8 or not ref.flat:
             nops = rng.choice([0, 1, 2, 3, 5, 8, 14])
-            ops, mops = sc.gen_ops(rng, ref, nops)
+            # every 10th application also receives messages whose states the file does not carry: +-inf
+            # on float ports, a symbol outside the map on a scalar option port (finding classes, see classify)
+            exotic = 0.15 if c % 10 == 3 else 0.0
+            ops, mops = sc.gen_ops(rng, ref, nops, exotic=exotic)
+            if exotic:
+                dist["save with non-finite floats / unknown option symbols among the messages"] = \
+                    dist.get("save with non-finite floats / unknown option symbols among the messages", 0) + 1
             out.append("save %s %s %s %s %s" % (tree, flat, ops, apro, mops))
             dist["save ops=%d" % nops] = dist.get("save ops=%d" % nops, 0) + 1
             dist["ports"] = dist.get("ports", 0) + len(ref.flat)
@@ -220,6 +230,13 @@ def canon(case, line):
         return line
     count_cond(line, _DIST)
     kv = sc.kv_fields(line)
+    if f[0] == "save" and state_classes(case, line)[0]:
+        # the state holds a non-finite float: the printer's model (C10's FloatFmt) covers finite values only and
+        # the abstract load works on scanned items, so only what leads up to the save is compared: the state
+        # reached by the messages.  What the library does with the file is judged by the Spec oracle alone
+        # (finding class nonfinite-float).
+        return "hdr=%s A=%s (state with a non-finite float: print / scan not modelled)" % (
+            kv.get("hdr"), ",".join(sorted(t for t in kv.get("A", "-").split(",") if not t.endswith("=NULL"))) or "-")
     def sort_dump(d):
         return ",".join(sorted(t for t in d.split(",") if not t.endswith("=NULL"))) or "-"
     if f[0] == "save":
@@ -285,7 +302,52 @@ def nontrivial(case, impl):
         return kv.get("lines", "-").count("|") >= 1
     return f[0] == "rej" and len(f) > 7 and f[7] != "ok"
 
+def nonfinite(b):
+    return (b & 0x7f800000) == 0x7f800000
+
+def state_classes(case, line):
+    """(ports holding a non-finite float, scalar option ports holding a number outside their declared
+    min / max) in the state the file is saved from (the A= dump of an output line)"""
+    f = case.split(" ")
+    kv = sc.kv_fields(line)
+    if f[0] != "save" or "A" not in kv:
+        return [], []
+    ref = sc.ref_from_flat(sc.parse_flat(f[2]))
+    try:
+        sa, _ = sc.state_from_dump(ref, kv["A"])
+    except Exception:
+        return [], []
+    nf, out = [], []
+    def outside(p, v):
+        return p.elem_kind() == "o" and any((p.min is not None and x < p.min) or (p.max is not None and x > p.max) for x in v)
+    for fp, v in zip(ref.flat, sa):
+        if v is None:
+            continue
+        p = fp.leaf
+        if p.elem_kind() == "f" and any(nonfinite(x) for x in v):
+            nf.append(fp.path)
+        if outside(p, v):
+            out.append(fp.path)
+        elif fp.sel is not None and sa[fp.sel] is not None and outside(ref.flat[fp.sel].leaf, sa[fp.sel]):
+            out.append(fp.path)      # its preset selector holds such a number: the default it selects changes with the clamp
+    return nf, out
+
 def classify(case, impl, failure):
+    """nonfinite-float: the saved state holds +-inf (or a NaN) in a float parameter - exactly the values
+    good_scalar1 / good_elem (Save/PrintLines.v, premise good_line of C12_roundtrip_tree_real_lines_partial)
+    exclude with f32_finite; the file then contains text the scanner rejects and loading fails as a whole.
+    option-outside-range: an option parameter holds a number outside its declared min / max (stored by a
+    symbol message: rCOptionCb's symbol branch does not clamp; an unknown symbol gives INT_MIN) - a value
+    that is not a fixed point of the port's callback, the clause `stable` of full_conditions; the round-trip
+    failure must name that port."""
+    if case.split(" ")[0] != "save":
+        return None
+    nf, out = state_classes(case, impl)
+    kind = failure.split(":")[0]
+    if nf and kind in ("minimal", "count", "roundtrip"):
+        return "nonfinite-float"
+    if out and kind == "roundtrip" and any(failure.startswith("roundtrip: %s is " % p) for p in out):
+        return "option-outside-range"
     return None
 
 def minimise(case, impl, failure, run):
